@@ -73,13 +73,6 @@ theorem call_payload (disable : Bool) (st : PayState) (c : C10.RtCall)
         cases f <;> simp [annexB]
       rw [hne]; simp
 
-/-- all fragments of a history, in order -/
-def fragsCalls (disable : Bool) : PayState → List C10.RtCall → List Bytes
-  | _, [] => []
-  | st, c :: cs =>
-    let r := payload disable c.mtu st c.buffer
-    r.1 ++ fragsCalls disable r.2 cs
-
 theorem observePkts_append (avc : Bool) (buf : Bytes) (a b : List Bytes) :
     observePkts avc buf (a ++ b) =
       ((observePkts avc buf a).1 ++ (observePkts avc (observePkts avc buf a).2 b).1,
@@ -98,10 +91,7 @@ theorem rtCalls_flatten (disable avc : Bool) (st : PayState) (buf : Bytes) (cs :
       (observePkts avc buf (payload disable c.mtu st c.buffer).1).2
     simp [rtCalls, fragsCalls, observePkts_append, this.1, this.2]
 
-def callWF (c : C10.RtCall) : Prop :=
-  3 ≤ c.mtu.toNat ∧ (c.bare = true → c.units.length = 1) ∧ ∀ u ∈ c.units, nalWF u.2 = true
-
-theorem frags_spec (disable : Bool) (cs : List C10.RtCall) (hw : ∀ c ∈ cs, callWF c) (st : PayState)
+theorem frags_spec (disable : Bool) (cs : List C10.RtCall) (hw : ∀ c ∈ cs, C10.RtCall.WF c) (st : PayState)
     (hst : StOk st) :
     StepPlan (fragsCalls disable st cs) (stepsOut disable (pendOf st) (cs.flatMap C10.RtCall.tagged)).1 := by
   induction cs generalizing st with
@@ -174,7 +164,7 @@ theorem tagged_snd (cs : List C10.RtCall) :
 
 /-- a whole history from a new payloader: the fragments are the encoding of a legal plan, packed
     as `stepsOut` says, that carries exactly the units `delivered` says -/
-theorem history_plan (disable : Bool) (cs : List C10.RtCall) (hw : ∀ c ∈ cs, callWF c) :
+theorem history_plan (disable : Bool) (cs : List C10.RtCall) (hw : ∀ c ∈ cs, C10.RtCall.WF c) :
     ∃ plan : List Item, fragsCalls disable {} cs = encode plan ∧ plan.all Item.wf = true ∧
       plan.all C10.headsApply = true ∧
       plan.map Item.group = (stepsOut disable (none, none) (cs.flatMap C10.RtCall.tagged)).1 ∧
@@ -186,7 +176,7 @@ theorem history_plan (disable : Bool) (cs : List C10.RtCall) (hw : ∀ c ∈ cs,
   | true => simp [delivered, (stepsOut_disable _ _).1, tagged_snd]
   | false => simp [delivered, stepsOut_holdback, pendOf, tagged_snd]
 
-theorem callWF_of_wf (i : C10.RtInput) (h : i.wf = true) : ∀ c ∈ i.calls, callWF c := by
+theorem callWF_of_wf (i : C10.RtInput) (h : i.wf = true) : ∀ c ∈ i.calls, C10.RtCall.WF c := by
   intro c hc
   simp only [C10.RtInput.wf, Bool.and_eq_true, List.all_eq_true, decide_eq_true_eq,
     Bool.or_eq_true, Bool.not_eq_true', beq_iff_eq] at h
